@@ -213,8 +213,19 @@ def c14_5(ctx):
     fn = ctx.repo.fn('_eq:eq')
     x, y = fn.params[:2]
     chain, types = _dispatch(fn)
+    ALLOWED = {'eq', 'veq', '_eq_attrs', 'type', 'len', 'min', 'max', 'all', 'any', 'zip', 'sorted', 'isinstance', 'items', 'array', 'isnan', 'keys', 'values'}
     for test, body in chain[:-1]:
         ctx.count(1)
+        for c in calls_in(ast.Module(body, [])):
+            nm = call_name(c)
+            if isinstance(c.func, ast.Name) and nm not in ALLOWED:
+                g = ctx.repo.resolve_name(fn.mod, nm)
+                from ..core import Fn as _Fn
+                if isinstance(g, _Fn) and {U(a) for a in c.args} >= {x, y}:
+                    raw = [m for m in ast.walk(g.node) if isinstance(m, ast.Compare) and len(m.ops) == 1 and isinstance(m.ops[0], ast.Eq) and {U(m.left), U(m.comparators[0])} == set(g.params[:2])]
+                    if raw:
+                        ctx.fail(fn, c, 'a container branch decides equality through %s(%s, %s), which applies the native == to the whole container (`%s`): native == ignores container/array types of the ITEMS (dict vs subclass, [array([1])] vs [1]) and is not NaN-aware' % (nm, x, y, U(raw[0])),
+                                 witness='eq([np.array([1])], [1])')
         for n in ast.walk(ast.Module(body, [])):
             if isinstance(n, ast.Compare) and len(n.ops) == 1 and isinstance(n.ops[0], (ast.Eq, ast.NotEq)):
                 a, b = U(n.left), U(n.comparators[0])
@@ -304,6 +315,14 @@ def c14_7(ctx):
             for c in calls_in(mod, '_eq_attrs'):
                 a = c.args[2] if len(c.args) > 2 else kw(c, 'attrs')
                 attrs |= {const(e) for e in getattr(a, 'elts', [])}
+            # the label comparison must be decided unconditionally (a top-level conjunct), not only when the object has cells
+            top = []
+            for r0 in [r for r in body if isinstance(r, ast.Return)]:
+                if isinstance(r0.value, ast.BoolOp) and isinstance(r0.value.op, ast.And):
+                    top = r0.value.values
+            if top and not any(isinstance(v, ast.Call) and call_name(v) == '_eq_attrs' for v in top):
+                ctx.fail(fn, body[0], 'index/columns are compared only inside the non-empty alternative: two EMPTY pandas objects with different labels compare equal',
+                         witness="eq(pd.DataFrame(columns=['a']), pd.DataFrame(columns=['b']))")
             if 'index' not in attrs:
                 ctx.fail(fn, body[0], 'pandas objects are compared without comparing their index')
             if 'columns' not in attrs:
